@@ -574,6 +574,198 @@ Definition src_it_ne_U8_U64 : list effect :=
 Definition src_it_ne_U8_U8 : list effect :=
   [ (Return (ECmp CNe (ECast I32 (EVar "lhs.index")) (ECast I32 (EVar "rhs.index")))) ].
 
+Definition src_opt_eq_I16 : list effect :=
+  [ (Return (ECond (ECond (ECond (ECond (ECmp CEq (ECast I32 (EVar "lhs.val")) (ECast I32 (EVar "null_value()"))) (ELit (1)) (ECond (ECmp CNe (ECast I32 (EVar "lhs.val")) (ECast I32 (EVar "lhs.val"))) (ECmp CNe (ECast I32 (EVar "null_value()")) (ECast I32 (EVar "null_value()"))) (ELit (0)))) (ELit (0)) (ELit (1))) (ECond (ECond (ECmp CEq (ECast I32 (EVar "rhs.val")) (ECast I32 (EVar "null_value()"))) (ELit (1)) (ECond (ECmp CNe (ECast I32 (EVar "rhs.val")) (ECast I32 (EVar "rhs.val"))) (ECmp CNe (ECast I32 (EVar "null_value()")) (ECast I32 (EVar "null_value()"))) (ELit (0)))) (ELit (0)) (ELit (1))) (ELit (0))) (ECmp CEq (ECast I32 (EVar "lhs.val")) (ECast I32 (EVar "rhs.val"))) (ECmp CEq (ECast I32 (ECond (ECond (ECmp CEq (ECast I32 (EVar "lhs.val")) (ECast I32 (EVar "null_value()"))) (ELit (1)) (ECond (ECmp CNe (ECast I32 (EVar "lhs.val")) (ECast I32 (EVar "lhs.val"))) (ECmp CNe (ECast I32 (EVar "null_value()")) (ECast I32 (EVar "null_value()"))) (ELit (0)))) (ELit (0)) (ELit (1)))) (ECast I32 (ECond (ECond (ECmp CEq (ECast I32 (EVar "rhs.val")) (ECast I32 (EVar "null_value()"))) (ELit (1)) (ECond (ECmp CNe (ECast I32 (EVar "rhs.val")) (ECast I32 (EVar "rhs.val"))) (ECmp CNe (ECast I32 (EVar "null_value()")) (ECast I32 (EVar "null_value()"))) (ELit (0)))) (ELit (0)) (ELit (1))))))) ].
+
+Definition src_opt_eq_I32 : list effect :=
+  [ (Return (ECond (ECond (ECond (ECond (ECmp CEq (EVar "lhs.val") (EVar "null_value()")) (ELit (1)) (ECond (ECmp CNe (EVar "lhs.val") (EVar "lhs.val")) (ECmp CNe (EVar "null_value()") (EVar "null_value()")) (ELit (0)))) (ELit (0)) (ELit (1))) (ECond (ECond (ECmp CEq (EVar "rhs.val") (EVar "null_value()")) (ELit (1)) (ECond (ECmp CNe (EVar "rhs.val") (EVar "rhs.val")) (ECmp CNe (EVar "null_value()") (EVar "null_value()")) (ELit (0)))) (ELit (0)) (ELit (1))) (ELit (0))) (ECmp CEq (EVar "lhs.val") (EVar "rhs.val")) (ECmp CEq (ECast I32 (ECond (ECond (ECmp CEq (EVar "lhs.val") (EVar "null_value()")) (ELit (1)) (ECond (ECmp CNe (EVar "lhs.val") (EVar "lhs.val")) (ECmp CNe (EVar "null_value()") (EVar "null_value()")) (ELit (0)))) (ELit (0)) (ELit (1)))) (ECast I32 (ECond (ECond (ECmp CEq (EVar "rhs.val") (EVar "null_value()")) (ELit (1)) (ECond (ECmp CNe (EVar "rhs.val") (EVar "rhs.val")) (ECmp CNe (EVar "null_value()") (EVar "null_value()")) (ELit (0)))) (ELit (0)) (ELit (1))))))) ].
+
+Definition src_opt_eq_I64 : list effect :=
+  [ (Return (ECond (ECond (ECond (ECond (ECmp CEq (EVar "lhs.val") (EVar "null_value()")) (ELit (1)) (ECond (ECmp CNe (EVar "lhs.val") (EVar "lhs.val")) (ECmp CNe (EVar "null_value()") (EVar "null_value()")) (ELit (0)))) (ELit (0)) (ELit (1))) (ECond (ECond (ECmp CEq (EVar "rhs.val") (EVar "null_value()")) (ELit (1)) (ECond (ECmp CNe (EVar "rhs.val") (EVar "rhs.val")) (ECmp CNe (EVar "null_value()") (EVar "null_value()")) (ELit (0)))) (ELit (0)) (ELit (1))) (ELit (0))) (ECmp CEq (EVar "lhs.val") (EVar "rhs.val")) (ECmp CEq (ECast I32 (ECond (ECond (ECmp CEq (EVar "lhs.val") (EVar "null_value()")) (ELit (1)) (ECond (ECmp CNe (EVar "lhs.val") (EVar "lhs.val")) (ECmp CNe (EVar "null_value()") (EVar "null_value()")) (ELit (0)))) (ELit (0)) (ELit (1)))) (ECast I32 (ECond (ECond (ECmp CEq (EVar "rhs.val") (EVar "null_value()")) (ELit (1)) (ECond (ECmp CNe (EVar "rhs.val") (EVar "rhs.val")) (ECmp CNe (EVar "null_value()") (EVar "null_value()")) (ELit (0)))) (ELit (0)) (ELit (1))))))) ].
+
+Definition src_opt_eq_I8 : list effect :=
+  [ (Return (ECond (ECond (ECond (ECond (ECmp CEq (ECast I32 (EVar "lhs.val")) (ECast I32 (EVar "null_value()"))) (ELit (1)) (ECond (ECmp CNe (ECast I32 (EVar "lhs.val")) (ECast I32 (EVar "lhs.val"))) (ECmp CNe (ECast I32 (EVar "null_value()")) (ECast I32 (EVar "null_value()"))) (ELit (0)))) (ELit (0)) (ELit (1))) (ECond (ECond (ECmp CEq (ECast I32 (EVar "rhs.val")) (ECast I32 (EVar "null_value()"))) (ELit (1)) (ECond (ECmp CNe (ECast I32 (EVar "rhs.val")) (ECast I32 (EVar "rhs.val"))) (ECmp CNe (ECast I32 (EVar "null_value()")) (ECast I32 (EVar "null_value()"))) (ELit (0)))) (ELit (0)) (ELit (1))) (ELit (0))) (ECmp CEq (ECast I32 (EVar "lhs.val")) (ECast I32 (EVar "rhs.val"))) (ECmp CEq (ECast I32 (ECond (ECond (ECmp CEq (ECast I32 (EVar "lhs.val")) (ECast I32 (EVar "null_value()"))) (ELit (1)) (ECond (ECmp CNe (ECast I32 (EVar "lhs.val")) (ECast I32 (EVar "lhs.val"))) (ECmp CNe (ECast I32 (EVar "null_value()")) (ECast I32 (EVar "null_value()"))) (ELit (0)))) (ELit (0)) (ELit (1)))) (ECast I32 (ECond (ECond (ECmp CEq (ECast I32 (EVar "rhs.val")) (ECast I32 (EVar "null_value()"))) (ELit (1)) (ECond (ECmp CNe (ECast I32 (EVar "rhs.val")) (ECast I32 (EVar "rhs.val"))) (ECmp CNe (ECast I32 (EVar "null_value()")) (ECast I32 (EVar "null_value()"))) (ELit (0)))) (ELit (0)) (ELit (1))))))) ].
+
+Definition src_opt_eq_U16 : list effect :=
+  [ (Return (ECond (ECond (ECond (ECond (ECmp CEq (ECast I32 (EVar "lhs.val")) (ECast I32 (EVar "null_value()"))) (ELit (1)) (ECond (ECmp CNe (ECast I32 (EVar "lhs.val")) (ECast I32 (EVar "lhs.val"))) (ECmp CNe (ECast I32 (EVar "null_value()")) (ECast I32 (EVar "null_value()"))) (ELit (0)))) (ELit (0)) (ELit (1))) (ECond (ECond (ECmp CEq (ECast I32 (EVar "rhs.val")) (ECast I32 (EVar "null_value()"))) (ELit (1)) (ECond (ECmp CNe (ECast I32 (EVar "rhs.val")) (ECast I32 (EVar "rhs.val"))) (ECmp CNe (ECast I32 (EVar "null_value()")) (ECast I32 (EVar "null_value()"))) (ELit (0)))) (ELit (0)) (ELit (1))) (ELit (0))) (ECmp CEq (ECast I32 (EVar "lhs.val")) (ECast I32 (EVar "rhs.val"))) (ECmp CEq (ECast I32 (ECond (ECond (ECmp CEq (ECast I32 (EVar "lhs.val")) (ECast I32 (EVar "null_value()"))) (ELit (1)) (ECond (ECmp CNe (ECast I32 (EVar "lhs.val")) (ECast I32 (EVar "lhs.val"))) (ECmp CNe (ECast I32 (EVar "null_value()")) (ECast I32 (EVar "null_value()"))) (ELit (0)))) (ELit (0)) (ELit (1)))) (ECast I32 (ECond (ECond (ECmp CEq (ECast I32 (EVar "rhs.val")) (ECast I32 (EVar "null_value()"))) (ELit (1)) (ECond (ECmp CNe (ECast I32 (EVar "rhs.val")) (ECast I32 (EVar "rhs.val"))) (ECmp CNe (ECast I32 (EVar "null_value()")) (ECast I32 (EVar "null_value()"))) (ELit (0)))) (ELit (0)) (ELit (1))))))) ].
+
+Definition src_opt_eq_U32 : list effect :=
+  [ (Return (ECond (ECond (ECond (ECond (ECmp CEq (EVar "lhs.val") (EVar "null_value()")) (ELit (1)) (ECond (ECmp CNe (EVar "lhs.val") (EVar "lhs.val")) (ECmp CNe (EVar "null_value()") (EVar "null_value()")) (ELit (0)))) (ELit (0)) (ELit (1))) (ECond (ECond (ECmp CEq (EVar "rhs.val") (EVar "null_value()")) (ELit (1)) (ECond (ECmp CNe (EVar "rhs.val") (EVar "rhs.val")) (ECmp CNe (EVar "null_value()") (EVar "null_value()")) (ELit (0)))) (ELit (0)) (ELit (1))) (ELit (0))) (ECmp CEq (EVar "lhs.val") (EVar "rhs.val")) (ECmp CEq (ECast I32 (ECond (ECond (ECmp CEq (EVar "lhs.val") (EVar "null_value()")) (ELit (1)) (ECond (ECmp CNe (EVar "lhs.val") (EVar "lhs.val")) (ECmp CNe (EVar "null_value()") (EVar "null_value()")) (ELit (0)))) (ELit (0)) (ELit (1)))) (ECast I32 (ECond (ECond (ECmp CEq (EVar "rhs.val") (EVar "null_value()")) (ELit (1)) (ECond (ECmp CNe (EVar "rhs.val") (EVar "rhs.val")) (ECmp CNe (EVar "null_value()") (EVar "null_value()")) (ELit (0)))) (ELit (0)) (ELit (1))))))) ].
+
+Definition src_opt_eq_U64 : list effect :=
+  [ (Return (ECond (ECond (ECond (ECond (ECmp CEq (EVar "lhs.val") (EVar "null_value()")) (ELit (1)) (ECond (ECmp CNe (EVar "lhs.val") (EVar "lhs.val")) (ECmp CNe (EVar "null_value()") (EVar "null_value()")) (ELit (0)))) (ELit (0)) (ELit (1))) (ECond (ECond (ECmp CEq (EVar "rhs.val") (EVar "null_value()")) (ELit (1)) (ECond (ECmp CNe (EVar "rhs.val") (EVar "rhs.val")) (ECmp CNe (EVar "null_value()") (EVar "null_value()")) (ELit (0)))) (ELit (0)) (ELit (1))) (ELit (0))) (ECmp CEq (EVar "lhs.val") (EVar "rhs.val")) (ECmp CEq (ECast I32 (ECond (ECond (ECmp CEq (EVar "lhs.val") (EVar "null_value()")) (ELit (1)) (ECond (ECmp CNe (EVar "lhs.val") (EVar "lhs.val")) (ECmp CNe (EVar "null_value()") (EVar "null_value()")) (ELit (0)))) (ELit (0)) (ELit (1)))) (ECast I32 (ECond (ECond (ECmp CEq (EVar "rhs.val") (EVar "null_value()")) (ELit (1)) (ECond (ECmp CNe (EVar "rhs.val") (EVar "rhs.val")) (ECmp CNe (EVar "null_value()") (EVar "null_value()")) (ELit (0)))) (ELit (0)) (ELit (1))))))) ].
+
+Definition src_opt_eq_U8 : list effect :=
+  [ (Return (ECond (ECond (ECond (ECond (ECmp CEq (ECast I32 (EVar "lhs.val")) (ECast I32 (EVar "null_value()"))) (ELit (1)) (ECond (ECmp CNe (ECast I32 (EVar "lhs.val")) (ECast I32 (EVar "lhs.val"))) (ECmp CNe (ECast I32 (EVar "null_value()")) (ECast I32 (EVar "null_value()"))) (ELit (0)))) (ELit (0)) (ELit (1))) (ECond (ECond (ECmp CEq (ECast I32 (EVar "rhs.val")) (ECast I32 (EVar "null_value()"))) (ELit (1)) (ECond (ECmp CNe (ECast I32 (EVar "rhs.val")) (ECast I32 (EVar "rhs.val"))) (ECmp CNe (ECast I32 (EVar "null_value()")) (ECast I32 (EVar "null_value()"))) (ELit (0)))) (ELit (0)) (ELit (1))) (ELit (0))) (ECmp CEq (ECast I32 (EVar "lhs.val")) (ECast I32 (EVar "rhs.val"))) (ECmp CEq (ECast I32 (ECond (ECond (ECmp CEq (ECast I32 (EVar "lhs.val")) (ECast I32 (EVar "null_value()"))) (ELit (1)) (ECond (ECmp CNe (ECast I32 (EVar "lhs.val")) (ECast I32 (EVar "lhs.val"))) (ECmp CNe (ECast I32 (EVar "null_value()")) (ECast I32 (EVar "null_value()"))) (ELit (0)))) (ELit (0)) (ELit (1)))) (ECast I32 (ECond (ECond (ECmp CEq (ECast I32 (EVar "rhs.val")) (ECast I32 (EVar "null_value()"))) (ELit (1)) (ECond (ECmp CNe (ECast I32 (EVar "rhs.val")) (ECast I32 (EVar "rhs.val"))) (ECmp CNe (ECast I32 (EVar "null_value()")) (ECast I32 (EVar "null_value()"))) (ELit (0)))) (ELit (0)) (ELit (1))))))) ].
+
+Definition src_opt_ge_I16 : list effect :=
+  [ (Return (ECond (ECond (ECond (ECond (ECmp CEq (ECast I32 (EVar "rhs.val")) (ECast I32 (EVar "null_value()"))) (ELit (1)) (ECond (ECmp CNe (ECast I32 (EVar "rhs.val")) (ECast I32 (EVar "rhs.val"))) (ECmp CNe (ECast I32 (EVar "null_value()")) (ECast I32 (EVar "null_value()"))) (ELit (0)))) (ELit (0)) (ELit (1))) (ELit (0)) (ELit (1))) (ELit (1)) (ECond (ECond (ECond (ECmp CEq (ECast I32 (EVar "lhs.val")) (ECast I32 (EVar "null_value()"))) (ELit (1)) (ECond (ECmp CNe (ECast I32 (EVar "lhs.val")) (ECast I32 (EVar "lhs.val"))) (ECmp CNe (ECast I32 (EVar "null_value()")) (ECast I32 (EVar "null_value()"))) (ELit (0)))) (ELit (0)) (ELit (1))) (ECmp CGe (ECast I32 (EVar "lhs.val")) (ECast I32 (EVar "rhs.val"))) (ELit (0))))) ].
+
+Definition src_opt_ge_I32 : list effect :=
+  [ (Return (ECond (ECond (ECond (ECond (ECmp CEq (EVar "rhs.val") (EVar "null_value()")) (ELit (1)) (ECond (ECmp CNe (EVar "rhs.val") (EVar "rhs.val")) (ECmp CNe (EVar "null_value()") (EVar "null_value()")) (ELit (0)))) (ELit (0)) (ELit (1))) (ELit (0)) (ELit (1))) (ELit (1)) (ECond (ECond (ECond (ECmp CEq (EVar "lhs.val") (EVar "null_value()")) (ELit (1)) (ECond (ECmp CNe (EVar "lhs.val") (EVar "lhs.val")) (ECmp CNe (EVar "null_value()") (EVar "null_value()")) (ELit (0)))) (ELit (0)) (ELit (1))) (ECmp CGe (EVar "lhs.val") (EVar "rhs.val")) (ELit (0))))) ].
+
+Definition src_opt_ge_I64 : list effect :=
+  [ (Return (ECond (ECond (ECond (ECond (ECmp CEq (EVar "rhs.val") (EVar "null_value()")) (ELit (1)) (ECond (ECmp CNe (EVar "rhs.val") (EVar "rhs.val")) (ECmp CNe (EVar "null_value()") (EVar "null_value()")) (ELit (0)))) (ELit (0)) (ELit (1))) (ELit (0)) (ELit (1))) (ELit (1)) (ECond (ECond (ECond (ECmp CEq (EVar "lhs.val") (EVar "null_value()")) (ELit (1)) (ECond (ECmp CNe (EVar "lhs.val") (EVar "lhs.val")) (ECmp CNe (EVar "null_value()") (EVar "null_value()")) (ELit (0)))) (ELit (0)) (ELit (1))) (ECmp CGe (EVar "lhs.val") (EVar "rhs.val")) (ELit (0))))) ].
+
+Definition src_opt_ge_I8 : list effect :=
+  [ (Return (ECond (ECond (ECond (ECond (ECmp CEq (ECast I32 (EVar "rhs.val")) (ECast I32 (EVar "null_value()"))) (ELit (1)) (ECond (ECmp CNe (ECast I32 (EVar "rhs.val")) (ECast I32 (EVar "rhs.val"))) (ECmp CNe (ECast I32 (EVar "null_value()")) (ECast I32 (EVar "null_value()"))) (ELit (0)))) (ELit (0)) (ELit (1))) (ELit (0)) (ELit (1))) (ELit (1)) (ECond (ECond (ECond (ECmp CEq (ECast I32 (EVar "lhs.val")) (ECast I32 (EVar "null_value()"))) (ELit (1)) (ECond (ECmp CNe (ECast I32 (EVar "lhs.val")) (ECast I32 (EVar "lhs.val"))) (ECmp CNe (ECast I32 (EVar "null_value()")) (ECast I32 (EVar "null_value()"))) (ELit (0)))) (ELit (0)) (ELit (1))) (ECmp CGe (ECast I32 (EVar "lhs.val")) (ECast I32 (EVar "rhs.val"))) (ELit (0))))) ].
+
+Definition src_opt_ge_U16 : list effect :=
+  [ (Return (ECond (ECond (ECond (ECond (ECmp CEq (ECast I32 (EVar "rhs.val")) (ECast I32 (EVar "null_value()"))) (ELit (1)) (ECond (ECmp CNe (ECast I32 (EVar "rhs.val")) (ECast I32 (EVar "rhs.val"))) (ECmp CNe (ECast I32 (EVar "null_value()")) (ECast I32 (EVar "null_value()"))) (ELit (0)))) (ELit (0)) (ELit (1))) (ELit (0)) (ELit (1))) (ELit (1)) (ECond (ECond (ECond (ECmp CEq (ECast I32 (EVar "lhs.val")) (ECast I32 (EVar "null_value()"))) (ELit (1)) (ECond (ECmp CNe (ECast I32 (EVar "lhs.val")) (ECast I32 (EVar "lhs.val"))) (ECmp CNe (ECast I32 (EVar "null_value()")) (ECast I32 (EVar "null_value()"))) (ELit (0)))) (ELit (0)) (ELit (1))) (ECmp CGe (ECast I32 (EVar "lhs.val")) (ECast I32 (EVar "rhs.val"))) (ELit (0))))) ].
+
+Definition src_opt_ge_U32 : list effect :=
+  [ (Return (ECond (ECond (ECond (ECond (ECmp CEq (EVar "rhs.val") (EVar "null_value()")) (ELit (1)) (ECond (ECmp CNe (EVar "rhs.val") (EVar "rhs.val")) (ECmp CNe (EVar "null_value()") (EVar "null_value()")) (ELit (0)))) (ELit (0)) (ELit (1))) (ELit (0)) (ELit (1))) (ELit (1)) (ECond (ECond (ECond (ECmp CEq (EVar "lhs.val") (EVar "null_value()")) (ELit (1)) (ECond (ECmp CNe (EVar "lhs.val") (EVar "lhs.val")) (ECmp CNe (EVar "null_value()") (EVar "null_value()")) (ELit (0)))) (ELit (0)) (ELit (1))) (ECmp CGe (EVar "lhs.val") (EVar "rhs.val")) (ELit (0))))) ].
+
+Definition src_opt_ge_U64 : list effect :=
+  [ (Return (ECond (ECond (ECond (ECond (ECmp CEq (EVar "rhs.val") (EVar "null_value()")) (ELit (1)) (ECond (ECmp CNe (EVar "rhs.val") (EVar "rhs.val")) (ECmp CNe (EVar "null_value()") (EVar "null_value()")) (ELit (0)))) (ELit (0)) (ELit (1))) (ELit (0)) (ELit (1))) (ELit (1)) (ECond (ECond (ECond (ECmp CEq (EVar "lhs.val") (EVar "null_value()")) (ELit (1)) (ECond (ECmp CNe (EVar "lhs.val") (EVar "lhs.val")) (ECmp CNe (EVar "null_value()") (EVar "null_value()")) (ELit (0)))) (ELit (0)) (ELit (1))) (ECmp CGe (EVar "lhs.val") (EVar "rhs.val")) (ELit (0))))) ].
+
+Definition src_opt_ge_U8 : list effect :=
+  [ (Return (ECond (ECond (ECond (ECond (ECmp CEq (ECast I32 (EVar "rhs.val")) (ECast I32 (EVar "null_value()"))) (ELit (1)) (ECond (ECmp CNe (ECast I32 (EVar "rhs.val")) (ECast I32 (EVar "rhs.val"))) (ECmp CNe (ECast I32 (EVar "null_value()")) (ECast I32 (EVar "null_value()"))) (ELit (0)))) (ELit (0)) (ELit (1))) (ELit (0)) (ELit (1))) (ELit (1)) (ECond (ECond (ECond (ECmp CEq (ECast I32 (EVar "lhs.val")) (ECast I32 (EVar "null_value()"))) (ELit (1)) (ECond (ECmp CNe (ECast I32 (EVar "lhs.val")) (ECast I32 (EVar "lhs.val"))) (ECmp CNe (ECast I32 (EVar "null_value()")) (ECast I32 (EVar "null_value()"))) (ELit (0)))) (ELit (0)) (ELit (1))) (ECmp CGe (ECast I32 (EVar "lhs.val")) (ECast I32 (EVar "rhs.val"))) (ELit (0))))) ].
+
+Definition src_opt_gt_I16 : list effect :=
+  [ (Return (ECond (ECond (ECond (ECmp CEq (ECast I32 (EVar "lhs.val")) (ECast I32 (EVar "null_value()"))) (ELit (1)) (ECond (ECmp CNe (ECast I32 (EVar "lhs.val")) (ECast I32 (EVar "lhs.val"))) (ECmp CNe (ECast I32 (EVar "null_value()")) (ECast I32 (EVar "null_value()"))) (ELit (0)))) (ELit (0)) (ELit (1))) (ECond (ECond (ECond (ECond (ECmp CEq (ECast I32 (EVar "rhs.val")) (ECast I32 (EVar "null_value()"))) (ELit (1)) (ECond (ECmp CNe (ECast I32 (EVar "rhs.val")) (ECast I32 (EVar "rhs.val"))) (ECmp CNe (ECast I32 (EVar "null_value()")) (ECast I32 (EVar "null_value()"))) (ELit (0)))) (ELit (0)) (ELit (1))) (ELit (0)) (ELit (1))) (ELit (1)) (ECmp CGt (ECast I32 (EVar "lhs.val")) (ECast I32 (EVar "rhs.val")))) (ELit (0)))) ].
+
+Definition src_opt_gt_I32 : list effect :=
+  [ (Return (ECond (ECond (ECond (ECmp CEq (EVar "lhs.val") (EVar "null_value()")) (ELit (1)) (ECond (ECmp CNe (EVar "lhs.val") (EVar "lhs.val")) (ECmp CNe (EVar "null_value()") (EVar "null_value()")) (ELit (0)))) (ELit (0)) (ELit (1))) (ECond (ECond (ECond (ECond (ECmp CEq (EVar "rhs.val") (EVar "null_value()")) (ELit (1)) (ECond (ECmp CNe (EVar "rhs.val") (EVar "rhs.val")) (ECmp CNe (EVar "null_value()") (EVar "null_value()")) (ELit (0)))) (ELit (0)) (ELit (1))) (ELit (0)) (ELit (1))) (ELit (1)) (ECmp CGt (EVar "lhs.val") (EVar "rhs.val"))) (ELit (0)))) ].
+
+Definition src_opt_gt_I64 : list effect :=
+  [ (Return (ECond (ECond (ECond (ECmp CEq (EVar "lhs.val") (EVar "null_value()")) (ELit (1)) (ECond (ECmp CNe (EVar "lhs.val") (EVar "lhs.val")) (ECmp CNe (EVar "null_value()") (EVar "null_value()")) (ELit (0)))) (ELit (0)) (ELit (1))) (ECond (ECond (ECond (ECond (ECmp CEq (EVar "rhs.val") (EVar "null_value()")) (ELit (1)) (ECond (ECmp CNe (EVar "rhs.val") (EVar "rhs.val")) (ECmp CNe (EVar "null_value()") (EVar "null_value()")) (ELit (0)))) (ELit (0)) (ELit (1))) (ELit (0)) (ELit (1))) (ELit (1)) (ECmp CGt (EVar "lhs.val") (EVar "rhs.val"))) (ELit (0)))) ].
+
+Definition src_opt_gt_I8 : list effect :=
+  [ (Return (ECond (ECond (ECond (ECmp CEq (ECast I32 (EVar "lhs.val")) (ECast I32 (EVar "null_value()"))) (ELit (1)) (ECond (ECmp CNe (ECast I32 (EVar "lhs.val")) (ECast I32 (EVar "lhs.val"))) (ECmp CNe (ECast I32 (EVar "null_value()")) (ECast I32 (EVar "null_value()"))) (ELit (0)))) (ELit (0)) (ELit (1))) (ECond (ECond (ECond (ECond (ECmp CEq (ECast I32 (EVar "rhs.val")) (ECast I32 (EVar "null_value()"))) (ELit (1)) (ECond (ECmp CNe (ECast I32 (EVar "rhs.val")) (ECast I32 (EVar "rhs.val"))) (ECmp CNe (ECast I32 (EVar "null_value()")) (ECast I32 (EVar "null_value()"))) (ELit (0)))) (ELit (0)) (ELit (1))) (ELit (0)) (ELit (1))) (ELit (1)) (ECmp CGt (ECast I32 (EVar "lhs.val")) (ECast I32 (EVar "rhs.val")))) (ELit (0)))) ].
+
+Definition src_opt_gt_U16 : list effect :=
+  [ (Return (ECond (ECond (ECond (ECmp CEq (ECast I32 (EVar "lhs.val")) (ECast I32 (EVar "null_value()"))) (ELit (1)) (ECond (ECmp CNe (ECast I32 (EVar "lhs.val")) (ECast I32 (EVar "lhs.val"))) (ECmp CNe (ECast I32 (EVar "null_value()")) (ECast I32 (EVar "null_value()"))) (ELit (0)))) (ELit (0)) (ELit (1))) (ECond (ECond (ECond (ECond (ECmp CEq (ECast I32 (EVar "rhs.val")) (ECast I32 (EVar "null_value()"))) (ELit (1)) (ECond (ECmp CNe (ECast I32 (EVar "rhs.val")) (ECast I32 (EVar "rhs.val"))) (ECmp CNe (ECast I32 (EVar "null_value()")) (ECast I32 (EVar "null_value()"))) (ELit (0)))) (ELit (0)) (ELit (1))) (ELit (0)) (ELit (1))) (ELit (1)) (ECmp CGt (ECast I32 (EVar "lhs.val")) (ECast I32 (EVar "rhs.val")))) (ELit (0)))) ].
+
+Definition src_opt_gt_U32 : list effect :=
+  [ (Return (ECond (ECond (ECond (ECmp CEq (EVar "lhs.val") (EVar "null_value()")) (ELit (1)) (ECond (ECmp CNe (EVar "lhs.val") (EVar "lhs.val")) (ECmp CNe (EVar "null_value()") (EVar "null_value()")) (ELit (0)))) (ELit (0)) (ELit (1))) (ECond (ECond (ECond (ECond (ECmp CEq (EVar "rhs.val") (EVar "null_value()")) (ELit (1)) (ECond (ECmp CNe (EVar "rhs.val") (EVar "rhs.val")) (ECmp CNe (EVar "null_value()") (EVar "null_value()")) (ELit (0)))) (ELit (0)) (ELit (1))) (ELit (0)) (ELit (1))) (ELit (1)) (ECmp CGt (EVar "lhs.val") (EVar "rhs.val"))) (ELit (0)))) ].
+
+Definition src_opt_gt_U64 : list effect :=
+  [ (Return (ECond (ECond (ECond (ECmp CEq (EVar "lhs.val") (EVar "null_value()")) (ELit (1)) (ECond (ECmp CNe (EVar "lhs.val") (EVar "lhs.val")) (ECmp CNe (EVar "null_value()") (EVar "null_value()")) (ELit (0)))) (ELit (0)) (ELit (1))) (ECond (ECond (ECond (ECond (ECmp CEq (EVar "rhs.val") (EVar "null_value()")) (ELit (1)) (ECond (ECmp CNe (EVar "rhs.val") (EVar "rhs.val")) (ECmp CNe (EVar "null_value()") (EVar "null_value()")) (ELit (0)))) (ELit (0)) (ELit (1))) (ELit (0)) (ELit (1))) (ELit (1)) (ECmp CGt (EVar "lhs.val") (EVar "rhs.val"))) (ELit (0)))) ].
+
+Definition src_opt_gt_U8 : list effect :=
+  [ (Return (ECond (ECond (ECond (ECmp CEq (ECast I32 (EVar "lhs.val")) (ECast I32 (EVar "null_value()"))) (ELit (1)) (ECond (ECmp CNe (ECast I32 (EVar "lhs.val")) (ECast I32 (EVar "lhs.val"))) (ECmp CNe (ECast I32 (EVar "null_value()")) (ECast I32 (EVar "null_value()"))) (ELit (0)))) (ELit (0)) (ELit (1))) (ECond (ECond (ECond (ECond (ECmp CEq (ECast I32 (EVar "rhs.val")) (ECast I32 (EVar "null_value()"))) (ELit (1)) (ECond (ECmp CNe (ECast I32 (EVar "rhs.val")) (ECast I32 (EVar "rhs.val"))) (ECmp CNe (ECast I32 (EVar "null_value()")) (ECast I32 (EVar "null_value()"))) (ELit (0)))) (ELit (0)) (ELit (1))) (ELit (0)) (ELit (1))) (ELit (1)) (ECmp CGt (ECast I32 (EVar "lhs.val")) (ECast I32 (EVar "rhs.val")))) (ELit (0)))) ].
+
+Definition src_opt_has_value_I16 : list effect :=
+  [ (Return (ECond (ECond (ECmp CEq (ECast I32 (EVar "val")) (ECast I32 (EVar "null_value()"))) (ELit (1)) (ECond (ECmp CNe (ECast I32 (EVar "val")) (ECast I32 (EVar "val"))) (ECmp CNe (ECast I32 (EVar "null_value()")) (ECast I32 (EVar "null_value()"))) (ELit (0)))) (ELit (0)) (ELit (1)))) ].
+
+Definition src_opt_has_value_I32 : list effect :=
+  [ (Return (ECond (ECond (ECmp CEq (EVar "val") (EVar "null_value()")) (ELit (1)) (ECond (ECmp CNe (EVar "val") (EVar "val")) (ECmp CNe (EVar "null_value()") (EVar "null_value()")) (ELit (0)))) (ELit (0)) (ELit (1)))) ].
+
+Definition src_opt_has_value_I64 : list effect :=
+  [ (Return (ECond (ECond (ECmp CEq (EVar "val") (EVar "null_value()")) (ELit (1)) (ECond (ECmp CNe (EVar "val") (EVar "val")) (ECmp CNe (EVar "null_value()") (EVar "null_value()")) (ELit (0)))) (ELit (0)) (ELit (1)))) ].
+
+Definition src_opt_has_value_I8 : list effect :=
+  [ (Return (ECond (ECond (ECmp CEq (ECast I32 (EVar "val")) (ECast I32 (EVar "null_value()"))) (ELit (1)) (ECond (ECmp CNe (ECast I32 (EVar "val")) (ECast I32 (EVar "val"))) (ECmp CNe (ECast I32 (EVar "null_value()")) (ECast I32 (EVar "null_value()"))) (ELit (0)))) (ELit (0)) (ELit (1)))) ].
+
+Definition src_opt_has_value_U16 : list effect :=
+  [ (Return (ECond (ECond (ECmp CEq (ECast I32 (EVar "val")) (ECast I32 (EVar "null_value()"))) (ELit (1)) (ECond (ECmp CNe (ECast I32 (EVar "val")) (ECast I32 (EVar "val"))) (ECmp CNe (ECast I32 (EVar "null_value()")) (ECast I32 (EVar "null_value()"))) (ELit (0)))) (ELit (0)) (ELit (1)))) ].
+
+Definition src_opt_has_value_U32 : list effect :=
+  [ (Return (ECond (ECond (ECmp CEq (EVar "val") (EVar "null_value()")) (ELit (1)) (ECond (ECmp CNe (EVar "val") (EVar "val")) (ECmp CNe (EVar "null_value()") (EVar "null_value()")) (ELit (0)))) (ELit (0)) (ELit (1)))) ].
+
+Definition src_opt_has_value_U64 : list effect :=
+  [ (Return (ECond (ECond (ECmp CEq (EVar "val") (EVar "null_value()")) (ELit (1)) (ECond (ECmp CNe (EVar "val") (EVar "val")) (ECmp CNe (EVar "null_value()") (EVar "null_value()")) (ELit (0)))) (ELit (0)) (ELit (1)))) ].
+
+Definition src_opt_has_value_U8 : list effect :=
+  [ (Return (ECond (ECond (ECmp CEq (ECast I32 (EVar "val")) (ECast I32 (EVar "null_value()"))) (ELit (1)) (ECond (ECmp CNe (ECast I32 (EVar "val")) (ECast I32 (EVar "val"))) (ECmp CNe (ECast I32 (EVar "null_value()")) (ECast I32 (EVar "null_value()"))) (ELit (0)))) (ELit (0)) (ELit (1)))) ].
+
+Definition src_opt_in_range_I16 : list effect :=
+  [ (Return (ECond (ECmp CLe (ECast I32 (EVar "min_value()")) (ECast I32 (EVar "val"))) (ECmp CLe (ECast I32 (EVar "val")) (ECast I32 (EVar "max_value()"))) (ELit (0)))) ].
+
+Definition src_opt_in_range_I32 : list effect :=
+  [ (Return (ECond (ECmp CLe (EVar "min_value()") (EVar "val")) (ECmp CLe (EVar "val") (EVar "max_value()")) (ELit (0)))) ].
+
+Definition src_opt_in_range_I64 : list effect :=
+  [ (Return (ECond (ECmp CLe (EVar "min_value()") (EVar "val")) (ECmp CLe (EVar "val") (EVar "max_value()")) (ELit (0)))) ].
+
+Definition src_opt_in_range_I8 : list effect :=
+  [ (Return (ECond (ECmp CLe (ECast I32 (EVar "min_value()")) (ECast I32 (EVar "val"))) (ECmp CLe (ECast I32 (EVar "val")) (ECast I32 (EVar "max_value()"))) (ELit (0)))) ].
+
+Definition src_opt_in_range_U16 : list effect :=
+  [ (Return (ECond (ECmp CLe (ECast I32 (EVar "min_value()")) (ECast I32 (EVar "val"))) (ECmp CLe (ECast I32 (EVar "val")) (ECast I32 (EVar "max_value()"))) (ELit (0)))) ].
+
+Definition src_opt_in_range_U32 : list effect :=
+  [ (Return (ECond (ECmp CLe (EVar "min_value()") (EVar "val")) (ECmp CLe (EVar "val") (EVar "max_value()")) (ELit (0)))) ].
+
+Definition src_opt_in_range_U64 : list effect :=
+  [ (Return (ECond (ECmp CLe (EVar "min_value()") (EVar "val")) (ECmp CLe (EVar "val") (EVar "max_value()")) (ELit (0)))) ].
+
+Definition src_opt_in_range_U8 : list effect :=
+  [ (Return (ECond (ECmp CLe (ECast I32 (EVar "min_value()")) (ECast I32 (EVar "val"))) (ECmp CLe (ECast I32 (EVar "val")) (ECast I32 (EVar "max_value()"))) (ELit (0)))) ].
+
+Definition src_opt_le_I16 : list effect :=
+  [ (Return (ECond (ECond (ECond (ECond (ECmp CEq (ECast I32 (EVar "lhs.val")) (ECast I32 (EVar "null_value()"))) (ELit (1)) (ECond (ECmp CNe (ECast I32 (EVar "lhs.val")) (ECast I32 (EVar "lhs.val"))) (ECmp CNe (ECast I32 (EVar "null_value()")) (ECast I32 (EVar "null_value()"))) (ELit (0)))) (ELit (0)) (ELit (1))) (ELit (0)) (ELit (1))) (ELit (1)) (ECond (ECond (ECond (ECmp CEq (ECast I32 (EVar "rhs.val")) (ECast I32 (EVar "null_value()"))) (ELit (1)) (ECond (ECmp CNe (ECast I32 (EVar "rhs.val")) (ECast I32 (EVar "rhs.val"))) (ECmp CNe (ECast I32 (EVar "null_value()")) (ECast I32 (EVar "null_value()"))) (ELit (0)))) (ELit (0)) (ELit (1))) (ECmp CLe (ECast I32 (EVar "lhs.val")) (ECast I32 (EVar "rhs.val"))) (ELit (0))))) ].
+
+Definition src_opt_le_I32 : list effect :=
+  [ (Return (ECond (ECond (ECond (ECond (ECmp CEq (EVar "lhs.val") (EVar "null_value()")) (ELit (1)) (ECond (ECmp CNe (EVar "lhs.val") (EVar "lhs.val")) (ECmp CNe (EVar "null_value()") (EVar "null_value()")) (ELit (0)))) (ELit (0)) (ELit (1))) (ELit (0)) (ELit (1))) (ELit (1)) (ECond (ECond (ECond (ECmp CEq (EVar "rhs.val") (EVar "null_value()")) (ELit (1)) (ECond (ECmp CNe (EVar "rhs.val") (EVar "rhs.val")) (ECmp CNe (EVar "null_value()") (EVar "null_value()")) (ELit (0)))) (ELit (0)) (ELit (1))) (ECmp CLe (EVar "lhs.val") (EVar "rhs.val")) (ELit (0))))) ].
+
+Definition src_opt_le_I64 : list effect :=
+  [ (Return (ECond (ECond (ECond (ECond (ECmp CEq (EVar "lhs.val") (EVar "null_value()")) (ELit (1)) (ECond (ECmp CNe (EVar "lhs.val") (EVar "lhs.val")) (ECmp CNe (EVar "null_value()") (EVar "null_value()")) (ELit (0)))) (ELit (0)) (ELit (1))) (ELit (0)) (ELit (1))) (ELit (1)) (ECond (ECond (ECond (ECmp CEq (EVar "rhs.val") (EVar "null_value()")) (ELit (1)) (ECond (ECmp CNe (EVar "rhs.val") (EVar "rhs.val")) (ECmp CNe (EVar "null_value()") (EVar "null_value()")) (ELit (0)))) (ELit (0)) (ELit (1))) (ECmp CLe (EVar "lhs.val") (EVar "rhs.val")) (ELit (0))))) ].
+
+Definition src_opt_le_I8 : list effect :=
+  [ (Return (ECond (ECond (ECond (ECond (ECmp CEq (ECast I32 (EVar "lhs.val")) (ECast I32 (EVar "null_value()"))) (ELit (1)) (ECond (ECmp CNe (ECast I32 (EVar "lhs.val")) (ECast I32 (EVar "lhs.val"))) (ECmp CNe (ECast I32 (EVar "null_value()")) (ECast I32 (EVar "null_value()"))) (ELit (0)))) (ELit (0)) (ELit (1))) (ELit (0)) (ELit (1))) (ELit (1)) (ECond (ECond (ECond (ECmp CEq (ECast I32 (EVar "rhs.val")) (ECast I32 (EVar "null_value()"))) (ELit (1)) (ECond (ECmp CNe (ECast I32 (EVar "rhs.val")) (ECast I32 (EVar "rhs.val"))) (ECmp CNe (ECast I32 (EVar "null_value()")) (ECast I32 (EVar "null_value()"))) (ELit (0)))) (ELit (0)) (ELit (1))) (ECmp CLe (ECast I32 (EVar "lhs.val")) (ECast I32 (EVar "rhs.val"))) (ELit (0))))) ].
+
+Definition src_opt_le_U16 : list effect :=
+  [ (Return (ECond (ECond (ECond (ECond (ECmp CEq (ECast I32 (EVar "lhs.val")) (ECast I32 (EVar "null_value()"))) (ELit (1)) (ECond (ECmp CNe (ECast I32 (EVar "lhs.val")) (ECast I32 (EVar "lhs.val"))) (ECmp CNe (ECast I32 (EVar "null_value()")) (ECast I32 (EVar "null_value()"))) (ELit (0)))) (ELit (0)) (ELit (1))) (ELit (0)) (ELit (1))) (ELit (1)) (ECond (ECond (ECond (ECmp CEq (ECast I32 (EVar "rhs.val")) (ECast I32 (EVar "null_value()"))) (ELit (1)) (ECond (ECmp CNe (ECast I32 (EVar "rhs.val")) (ECast I32 (EVar "rhs.val"))) (ECmp CNe (ECast I32 (EVar "null_value()")) (ECast I32 (EVar "null_value()"))) (ELit (0)))) (ELit (0)) (ELit (1))) (ECmp CLe (ECast I32 (EVar "lhs.val")) (ECast I32 (EVar "rhs.val"))) (ELit (0))))) ].
+
+Definition src_opt_le_U32 : list effect :=
+  [ (Return (ECond (ECond (ECond (ECond (ECmp CEq (EVar "lhs.val") (EVar "null_value()")) (ELit (1)) (ECond (ECmp CNe (EVar "lhs.val") (EVar "lhs.val")) (ECmp CNe (EVar "null_value()") (EVar "null_value()")) (ELit (0)))) (ELit (0)) (ELit (1))) (ELit (0)) (ELit (1))) (ELit (1)) (ECond (ECond (ECond (ECmp CEq (EVar "rhs.val") (EVar "null_value()")) (ELit (1)) (ECond (ECmp CNe (EVar "rhs.val") (EVar "rhs.val")) (ECmp CNe (EVar "null_value()") (EVar "null_value()")) (ELit (0)))) (ELit (0)) (ELit (1))) (ECmp CLe (EVar "lhs.val") (EVar "rhs.val")) (ELit (0))))) ].
+
+Definition src_opt_le_U64 : list effect :=
+  [ (Return (ECond (ECond (ECond (ECond (ECmp CEq (EVar "lhs.val") (EVar "null_value()")) (ELit (1)) (ECond (ECmp CNe (EVar "lhs.val") (EVar "lhs.val")) (ECmp CNe (EVar "null_value()") (EVar "null_value()")) (ELit (0)))) (ELit (0)) (ELit (1))) (ELit (0)) (ELit (1))) (ELit (1)) (ECond (ECond (ECond (ECmp CEq (EVar "rhs.val") (EVar "null_value()")) (ELit (1)) (ECond (ECmp CNe (EVar "rhs.val") (EVar "rhs.val")) (ECmp CNe (EVar "null_value()") (EVar "null_value()")) (ELit (0)))) (ELit (0)) (ELit (1))) (ECmp CLe (EVar "lhs.val") (EVar "rhs.val")) (ELit (0))))) ].
+
+Definition src_opt_le_U8 : list effect :=
+  [ (Return (ECond (ECond (ECond (ECond (ECmp CEq (ECast I32 (EVar "lhs.val")) (ECast I32 (EVar "null_value()"))) (ELit (1)) (ECond (ECmp CNe (ECast I32 (EVar "lhs.val")) (ECast I32 (EVar "lhs.val"))) (ECmp CNe (ECast I32 (EVar "null_value()")) (ECast I32 (EVar "null_value()"))) (ELit (0)))) (ELit (0)) (ELit (1))) (ELit (0)) (ELit (1))) (ELit (1)) (ECond (ECond (ECond (ECmp CEq (ECast I32 (EVar "rhs.val")) (ECast I32 (EVar "null_value()"))) (ELit (1)) (ECond (ECmp CNe (ECast I32 (EVar "rhs.val")) (ECast I32 (EVar "rhs.val"))) (ECmp CNe (ECast I32 (EVar "null_value()")) (ECast I32 (EVar "null_value()"))) (ELit (0)))) (ELit (0)) (ELit (1))) (ECmp CLe (ECast I32 (EVar "lhs.val")) (ECast I32 (EVar "rhs.val"))) (ELit (0))))) ].
+
+Definition src_opt_lt_I16 : list effect :=
+  [ (Return (ECond (ECond (ECond (ECmp CEq (ECast I32 (EVar "rhs.val")) (ECast I32 (EVar "null_value()"))) (ELit (1)) (ECond (ECmp CNe (ECast I32 (EVar "rhs.val")) (ECast I32 (EVar "rhs.val"))) (ECmp CNe (ECast I32 (EVar "null_value()")) (ECast I32 (EVar "null_value()"))) (ELit (0)))) (ELit (0)) (ELit (1))) (ECond (ECond (ECond (ECond (ECmp CEq (ECast I32 (EVar "lhs.val")) (ECast I32 (EVar "null_value()"))) (ELit (1)) (ECond (ECmp CNe (ECast I32 (EVar "lhs.val")) (ECast I32 (EVar "lhs.val"))) (ECmp CNe (ECast I32 (EVar "null_value()")) (ECast I32 (EVar "null_value()"))) (ELit (0)))) (ELit (0)) (ELit (1))) (ELit (0)) (ELit (1))) (ELit (1)) (ECmp CLt (ECast I32 (EVar "lhs.val")) (ECast I32 (EVar "rhs.val")))) (ELit (0)))) ].
+
+Definition src_opt_lt_I32 : list effect :=
+  [ (Return (ECond (ECond (ECond (ECmp CEq (EVar "rhs.val") (EVar "null_value()")) (ELit (1)) (ECond (ECmp CNe (EVar "rhs.val") (EVar "rhs.val")) (ECmp CNe (EVar "null_value()") (EVar "null_value()")) (ELit (0)))) (ELit (0)) (ELit (1))) (ECond (ECond (ECond (ECond (ECmp CEq (EVar "lhs.val") (EVar "null_value()")) (ELit (1)) (ECond (ECmp CNe (EVar "lhs.val") (EVar "lhs.val")) (ECmp CNe (EVar "null_value()") (EVar "null_value()")) (ELit (0)))) (ELit (0)) (ELit (1))) (ELit (0)) (ELit (1))) (ELit (1)) (ECmp CLt (EVar "lhs.val") (EVar "rhs.val"))) (ELit (0)))) ].
+
+Definition src_opt_lt_I64 : list effect :=
+  [ (Return (ECond (ECond (ECond (ECmp CEq (EVar "rhs.val") (EVar "null_value()")) (ELit (1)) (ECond (ECmp CNe (EVar "rhs.val") (EVar "rhs.val")) (ECmp CNe (EVar "null_value()") (EVar "null_value()")) (ELit (0)))) (ELit (0)) (ELit (1))) (ECond (ECond (ECond (ECond (ECmp CEq (EVar "lhs.val") (EVar "null_value()")) (ELit (1)) (ECond (ECmp CNe (EVar "lhs.val") (EVar "lhs.val")) (ECmp CNe (EVar "null_value()") (EVar "null_value()")) (ELit (0)))) (ELit (0)) (ELit (1))) (ELit (0)) (ELit (1))) (ELit (1)) (ECmp CLt (EVar "lhs.val") (EVar "rhs.val"))) (ELit (0)))) ].
+
+Definition src_opt_lt_I8 : list effect :=
+  [ (Return (ECond (ECond (ECond (ECmp CEq (ECast I32 (EVar "rhs.val")) (ECast I32 (EVar "null_value()"))) (ELit (1)) (ECond (ECmp CNe (ECast I32 (EVar "rhs.val")) (ECast I32 (EVar "rhs.val"))) (ECmp CNe (ECast I32 (EVar "null_value()")) (ECast I32 (EVar "null_value()"))) (ELit (0)))) (ELit (0)) (ELit (1))) (ECond (ECond (ECond (ECond (ECmp CEq (ECast I32 (EVar "lhs.val")) (ECast I32 (EVar "null_value()"))) (ELit (1)) (ECond (ECmp CNe (ECast I32 (EVar "lhs.val")) (ECast I32 (EVar "lhs.val"))) (ECmp CNe (ECast I32 (EVar "null_value()")) (ECast I32 (EVar "null_value()"))) (ELit (0)))) (ELit (0)) (ELit (1))) (ELit (0)) (ELit (1))) (ELit (1)) (ECmp CLt (ECast I32 (EVar "lhs.val")) (ECast I32 (EVar "rhs.val")))) (ELit (0)))) ].
+
+Definition src_opt_lt_U16 : list effect :=
+  [ (Return (ECond (ECond (ECond (ECmp CEq (ECast I32 (EVar "rhs.val")) (ECast I32 (EVar "null_value()"))) (ELit (1)) (ECond (ECmp CNe (ECast I32 (EVar "rhs.val")) (ECast I32 (EVar "rhs.val"))) (ECmp CNe (ECast I32 (EVar "null_value()")) (ECast I32 (EVar "null_value()"))) (ELit (0)))) (ELit (0)) (ELit (1))) (ECond (ECond (ECond (ECond (ECmp CEq (ECast I32 (EVar "lhs.val")) (ECast I32 (EVar "null_value()"))) (ELit (1)) (ECond (ECmp CNe (ECast I32 (EVar "lhs.val")) (ECast I32 (EVar "lhs.val"))) (ECmp CNe (ECast I32 (EVar "null_value()")) (ECast I32 (EVar "null_value()"))) (ELit (0)))) (ELit (0)) (ELit (1))) (ELit (0)) (ELit (1))) (ELit (1)) (ECmp CLt (ECast I32 (EVar "lhs.val")) (ECast I32 (EVar "rhs.val")))) (ELit (0)))) ].
+
+Definition src_opt_lt_U32 : list effect :=
+  [ (Return (ECond (ECond (ECond (ECmp CEq (EVar "rhs.val") (EVar "null_value()")) (ELit (1)) (ECond (ECmp CNe (EVar "rhs.val") (EVar "rhs.val")) (ECmp CNe (EVar "null_value()") (EVar "null_value()")) (ELit (0)))) (ELit (0)) (ELit (1))) (ECond (ECond (ECond (ECond (ECmp CEq (EVar "lhs.val") (EVar "null_value()")) (ELit (1)) (ECond (ECmp CNe (EVar "lhs.val") (EVar "lhs.val")) (ECmp CNe (EVar "null_value()") (EVar "null_value()")) (ELit (0)))) (ELit (0)) (ELit (1))) (ELit (0)) (ELit (1))) (ELit (1)) (ECmp CLt (EVar "lhs.val") (EVar "rhs.val"))) (ELit (0)))) ].
+
+Definition src_opt_lt_U64 : list effect :=
+  [ (Return (ECond (ECond (ECond (ECmp CEq (EVar "rhs.val") (EVar "null_value()")) (ELit (1)) (ECond (ECmp CNe (EVar "rhs.val") (EVar "rhs.val")) (ECmp CNe (EVar "null_value()") (EVar "null_value()")) (ELit (0)))) (ELit (0)) (ELit (1))) (ECond (ECond (ECond (ECond (ECmp CEq (EVar "lhs.val") (EVar "null_value()")) (ELit (1)) (ECond (ECmp CNe (EVar "lhs.val") (EVar "lhs.val")) (ECmp CNe (EVar "null_value()") (EVar "null_value()")) (ELit (0)))) (ELit (0)) (ELit (1))) (ELit (0)) (ELit (1))) (ELit (1)) (ECmp CLt (EVar "lhs.val") (EVar "rhs.val"))) (ELit (0)))) ].
+
+Definition src_opt_lt_U8 : list effect :=
+  [ (Return (ECond (ECond (ECond (ECmp CEq (ECast I32 (EVar "rhs.val")) (ECast I32 (EVar "null_value()"))) (ELit (1)) (ECond (ECmp CNe (ECast I32 (EVar "rhs.val")) (ECast I32 (EVar "rhs.val"))) (ECmp CNe (ECast I32 (EVar "null_value()")) (ECast I32 (EVar "null_value()"))) (ELit (0)))) (ELit (0)) (ELit (1))) (ECond (ECond (ECond (ECond (ECmp CEq (ECast I32 (EVar "lhs.val")) (ECast I32 (EVar "null_value()"))) (ELit (1)) (ECond (ECmp CNe (ECast I32 (EVar "lhs.val")) (ECast I32 (EVar "lhs.val"))) (ECmp CNe (ECast I32 (EVar "null_value()")) (ECast I32 (EVar "null_value()"))) (ELit (0)))) (ELit (0)) (ELit (1))) (ELit (0)) (ELit (1))) (ELit (1)) (ECmp CLt (ECast I32 (EVar "lhs.val")) (ECast I32 (EVar "rhs.val")))) (ELit (0)))) ].
+
+Definition src_opt_ne_I16 : list effect :=
+  [ (Return (ECond (ECond (ECond (ECond (ECond (ECmp CEq (ECast I32 (EVar "lhs.val")) (ECast I32 (EVar "null_value()"))) (ELit (1)) (ECond (ECmp CNe (ECast I32 (EVar "lhs.val")) (ECast I32 (EVar "lhs.val"))) (ECmp CNe (ECast I32 (EVar "null_value()")) (ECast I32 (EVar "null_value()"))) (ELit (0)))) (ELit (0)) (ELit (1))) (ECond (ECond (ECmp CEq (ECast I32 (EVar "rhs.val")) (ECast I32 (EVar "null_value()"))) (ELit (1)) (ECond (ECmp CNe (ECast I32 (EVar "rhs.val")) (ECast I32 (EVar "rhs.val"))) (ECmp CNe (ECast I32 (EVar "null_value()")) (ECast I32 (EVar "null_value()"))) (ELit (0)))) (ELit (0)) (ELit (1))) (ELit (0))) (ECmp CEq (ECast I32 (EVar "lhs.val")) (ECast I32 (EVar "rhs.val"))) (ECmp CEq (ECast I32 (ECond (ECond (ECmp CEq (ECast I32 (EVar "lhs.val")) (ECast I32 (EVar "null_value()"))) (ELit (1)) (ECond (ECmp CNe (ECast I32 (EVar "lhs.val")) (ECast I32 (EVar "lhs.val"))) (ECmp CNe (ECast I32 (EVar "null_value()")) (ECast I32 (EVar "null_value()"))) (ELit (0)))) (ELit (0)) (ELit (1)))) (ECast I32 (ECond (ECond (ECmp CEq (ECast I32 (EVar "rhs.val")) (ECast I32 (EVar "null_value()"))) (ELit (1)) (ECond (ECmp CNe (ECast I32 (EVar "rhs.val")) (ECast I32 (EVar "rhs.val"))) (ECmp CNe (ECast I32 (EVar "null_value()")) (ECast I32 (EVar "null_value()"))) (ELit (0)))) (ELit (0)) (ELit (1)))))) (ELit (0)) (ELit (1)))) ].
+
+Definition src_opt_ne_I32 : list effect :=
+  [ (Return (ECond (ECond (ECond (ECond (ECond (ECmp CEq (EVar "lhs.val") (EVar "null_value()")) (ELit (1)) (ECond (ECmp CNe (EVar "lhs.val") (EVar "lhs.val")) (ECmp CNe (EVar "null_value()") (EVar "null_value()")) (ELit (0)))) (ELit (0)) (ELit (1))) (ECond (ECond (ECmp CEq (EVar "rhs.val") (EVar "null_value()")) (ELit (1)) (ECond (ECmp CNe (EVar "rhs.val") (EVar "rhs.val")) (ECmp CNe (EVar "null_value()") (EVar "null_value()")) (ELit (0)))) (ELit (0)) (ELit (1))) (ELit (0))) (ECmp CEq (EVar "lhs.val") (EVar "rhs.val")) (ECmp CEq (ECast I32 (ECond (ECond (ECmp CEq (EVar "lhs.val") (EVar "null_value()")) (ELit (1)) (ECond (ECmp CNe (EVar "lhs.val") (EVar "lhs.val")) (ECmp CNe (EVar "null_value()") (EVar "null_value()")) (ELit (0)))) (ELit (0)) (ELit (1)))) (ECast I32 (ECond (ECond (ECmp CEq (EVar "rhs.val") (EVar "null_value()")) (ELit (1)) (ECond (ECmp CNe (EVar "rhs.val") (EVar "rhs.val")) (ECmp CNe (EVar "null_value()") (EVar "null_value()")) (ELit (0)))) (ELit (0)) (ELit (1)))))) (ELit (0)) (ELit (1)))) ].
+
+Definition src_opt_ne_I64 : list effect :=
+  [ (Return (ECond (ECond (ECond (ECond (ECond (ECmp CEq (EVar "lhs.val") (EVar "null_value()")) (ELit (1)) (ECond (ECmp CNe (EVar "lhs.val") (EVar "lhs.val")) (ECmp CNe (EVar "null_value()") (EVar "null_value()")) (ELit (0)))) (ELit (0)) (ELit (1))) (ECond (ECond (ECmp CEq (EVar "rhs.val") (EVar "null_value()")) (ELit (1)) (ECond (ECmp CNe (EVar "rhs.val") (EVar "rhs.val")) (ECmp CNe (EVar "null_value()") (EVar "null_value()")) (ELit (0)))) (ELit (0)) (ELit (1))) (ELit (0))) (ECmp CEq (EVar "lhs.val") (EVar "rhs.val")) (ECmp CEq (ECast I32 (ECond (ECond (ECmp CEq (EVar "lhs.val") (EVar "null_value()")) (ELit (1)) (ECond (ECmp CNe (EVar "lhs.val") (EVar "lhs.val")) (ECmp CNe (EVar "null_value()") (EVar "null_value()")) (ELit (0)))) (ELit (0)) (ELit (1)))) (ECast I32 (ECond (ECond (ECmp CEq (EVar "rhs.val") (EVar "null_value()")) (ELit (1)) (ECond (ECmp CNe (EVar "rhs.val") (EVar "rhs.val")) (ECmp CNe (EVar "null_value()") (EVar "null_value()")) (ELit (0)))) (ELit (0)) (ELit (1)))))) (ELit (0)) (ELit (1)))) ].
+
+Definition src_opt_ne_I8 : list effect :=
+  [ (Return (ECond (ECond (ECond (ECond (ECond (ECmp CEq (ECast I32 (EVar "lhs.val")) (ECast I32 (EVar "null_value()"))) (ELit (1)) (ECond (ECmp CNe (ECast I32 (EVar "lhs.val")) (ECast I32 (EVar "lhs.val"))) (ECmp CNe (ECast I32 (EVar "null_value()")) (ECast I32 (EVar "null_value()"))) (ELit (0)))) (ELit (0)) (ELit (1))) (ECond (ECond (ECmp CEq (ECast I32 (EVar "rhs.val")) (ECast I32 (EVar "null_value()"))) (ELit (1)) (ECond (ECmp CNe (ECast I32 (EVar "rhs.val")) (ECast I32 (EVar "rhs.val"))) (ECmp CNe (ECast I32 (EVar "null_value()")) (ECast I32 (EVar "null_value()"))) (ELit (0)))) (ELit (0)) (ELit (1))) (ELit (0))) (ECmp CEq (ECast I32 (EVar "lhs.val")) (ECast I32 (EVar "rhs.val"))) (ECmp CEq (ECast I32 (ECond (ECond (ECmp CEq (ECast I32 (EVar "lhs.val")) (ECast I32 (EVar "null_value()"))) (ELit (1)) (ECond (ECmp CNe (ECast I32 (EVar "lhs.val")) (ECast I32 (EVar "lhs.val"))) (ECmp CNe (ECast I32 (EVar "null_value()")) (ECast I32 (EVar "null_value()"))) (ELit (0)))) (ELit (0)) (ELit (1)))) (ECast I32 (ECond (ECond (ECmp CEq (ECast I32 (EVar "rhs.val")) (ECast I32 (EVar "null_value()"))) (ELit (1)) (ECond (ECmp CNe (ECast I32 (EVar "rhs.val")) (ECast I32 (EVar "rhs.val"))) (ECmp CNe (ECast I32 (EVar "null_value()")) (ECast I32 (EVar "null_value()"))) (ELit (0)))) (ELit (0)) (ELit (1)))))) (ELit (0)) (ELit (1)))) ].
+
+Definition src_opt_ne_U16 : list effect :=
+  [ (Return (ECond (ECond (ECond (ECond (ECond (ECmp CEq (ECast I32 (EVar "lhs.val")) (ECast I32 (EVar "null_value()"))) (ELit (1)) (ECond (ECmp CNe (ECast I32 (EVar "lhs.val")) (ECast I32 (EVar "lhs.val"))) (ECmp CNe (ECast I32 (EVar "null_value()")) (ECast I32 (EVar "null_value()"))) (ELit (0)))) (ELit (0)) (ELit (1))) (ECond (ECond (ECmp CEq (ECast I32 (EVar "rhs.val")) (ECast I32 (EVar "null_value()"))) (ELit (1)) (ECond (ECmp CNe (ECast I32 (EVar "rhs.val")) (ECast I32 (EVar "rhs.val"))) (ECmp CNe (ECast I32 (EVar "null_value()")) (ECast I32 (EVar "null_value()"))) (ELit (0)))) (ELit (0)) (ELit (1))) (ELit (0))) (ECmp CEq (ECast I32 (EVar "lhs.val")) (ECast I32 (EVar "rhs.val"))) (ECmp CEq (ECast I32 (ECond (ECond (ECmp CEq (ECast I32 (EVar "lhs.val")) (ECast I32 (EVar "null_value()"))) (ELit (1)) (ECond (ECmp CNe (ECast I32 (EVar "lhs.val")) (ECast I32 (EVar "lhs.val"))) (ECmp CNe (ECast I32 (EVar "null_value()")) (ECast I32 (EVar "null_value()"))) (ELit (0)))) (ELit (0)) (ELit (1)))) (ECast I32 (ECond (ECond (ECmp CEq (ECast I32 (EVar "rhs.val")) (ECast I32 (EVar "null_value()"))) (ELit (1)) (ECond (ECmp CNe (ECast I32 (EVar "rhs.val")) (ECast I32 (EVar "rhs.val"))) (ECmp CNe (ECast I32 (EVar "null_value()")) (ECast I32 (EVar "null_value()"))) (ELit (0)))) (ELit (0)) (ELit (1)))))) (ELit (0)) (ELit (1)))) ].
+
+Definition src_opt_ne_U32 : list effect :=
+  [ (Return (ECond (ECond (ECond (ECond (ECond (ECmp CEq (EVar "lhs.val") (EVar "null_value()")) (ELit (1)) (ECond (ECmp CNe (EVar "lhs.val") (EVar "lhs.val")) (ECmp CNe (EVar "null_value()") (EVar "null_value()")) (ELit (0)))) (ELit (0)) (ELit (1))) (ECond (ECond (ECmp CEq (EVar "rhs.val") (EVar "null_value()")) (ELit (1)) (ECond (ECmp CNe (EVar "rhs.val") (EVar "rhs.val")) (ECmp CNe (EVar "null_value()") (EVar "null_value()")) (ELit (0)))) (ELit (0)) (ELit (1))) (ELit (0))) (ECmp CEq (EVar "lhs.val") (EVar "rhs.val")) (ECmp CEq (ECast I32 (ECond (ECond (ECmp CEq (EVar "lhs.val") (EVar "null_value()")) (ELit (1)) (ECond (ECmp CNe (EVar "lhs.val") (EVar "lhs.val")) (ECmp CNe (EVar "null_value()") (EVar "null_value()")) (ELit (0)))) (ELit (0)) (ELit (1)))) (ECast I32 (ECond (ECond (ECmp CEq (EVar "rhs.val") (EVar "null_value()")) (ELit (1)) (ECond (ECmp CNe (EVar "rhs.val") (EVar "rhs.val")) (ECmp CNe (EVar "null_value()") (EVar "null_value()")) (ELit (0)))) (ELit (0)) (ELit (1)))))) (ELit (0)) (ELit (1)))) ].
+
+Definition src_opt_ne_U64 : list effect :=
+  [ (Return (ECond (ECond (ECond (ECond (ECond (ECmp CEq (EVar "lhs.val") (EVar "null_value()")) (ELit (1)) (ECond (ECmp CNe (EVar "lhs.val") (EVar "lhs.val")) (ECmp CNe (EVar "null_value()") (EVar "null_value()")) (ELit (0)))) (ELit (0)) (ELit (1))) (ECond (ECond (ECmp CEq (EVar "rhs.val") (EVar "null_value()")) (ELit (1)) (ECond (ECmp CNe (EVar "rhs.val") (EVar "rhs.val")) (ECmp CNe (EVar "null_value()") (EVar "null_value()")) (ELit (0)))) (ELit (0)) (ELit (1))) (ELit (0))) (ECmp CEq (EVar "lhs.val") (EVar "rhs.val")) (ECmp CEq (ECast I32 (ECond (ECond (ECmp CEq (EVar "lhs.val") (EVar "null_value()")) (ELit (1)) (ECond (ECmp CNe (EVar "lhs.val") (EVar "lhs.val")) (ECmp CNe (EVar "null_value()") (EVar "null_value()")) (ELit (0)))) (ELit (0)) (ELit (1)))) (ECast I32 (ECond (ECond (ECmp CEq (EVar "rhs.val") (EVar "null_value()")) (ELit (1)) (ECond (ECmp CNe (EVar "rhs.val") (EVar "rhs.val")) (ECmp CNe (EVar "null_value()") (EVar "null_value()")) (ELit (0)))) (ELit (0)) (ELit (1)))))) (ELit (0)) (ELit (1)))) ].
+
+Definition src_opt_ne_U8 : list effect :=
+  [ (Return (ECond (ECond (ECond (ECond (ECond (ECmp CEq (ECast I32 (EVar "lhs.val")) (ECast I32 (EVar "null_value()"))) (ELit (1)) (ECond (ECmp CNe (ECast I32 (EVar "lhs.val")) (ECast I32 (EVar "lhs.val"))) (ECmp CNe (ECast I32 (EVar "null_value()")) (ECast I32 (EVar "null_value()"))) (ELit (0)))) (ELit (0)) (ELit (1))) (ECond (ECond (ECmp CEq (ECast I32 (EVar "rhs.val")) (ECast I32 (EVar "null_value()"))) (ELit (1)) (ECond (ECmp CNe (ECast I32 (EVar "rhs.val")) (ECast I32 (EVar "rhs.val"))) (ECmp CNe (ECast I32 (EVar "null_value()")) (ECast I32 (EVar "null_value()"))) (ELit (0)))) (ELit (0)) (ELit (1))) (ELit (0))) (ECmp CEq (ECast I32 (EVar "lhs.val")) (ECast I32 (EVar "rhs.val"))) (ECmp CEq (ECast I32 (ECond (ECond (ECmp CEq (ECast I32 (EVar "lhs.val")) (ECast I32 (EVar "null_value()"))) (ELit (1)) (ECond (ECmp CNe (ECast I32 (EVar "lhs.val")) (ECast I32 (EVar "lhs.val"))) (ECmp CNe (ECast I32 (EVar "null_value()")) (ECast I32 (EVar "null_value()"))) (ELit (0)))) (ELit (0)) (ELit (1)))) (ECast I32 (ECond (ECond (ECmp CEq (ECast I32 (EVar "rhs.val")) (ECast I32 (EVar "null_value()"))) (ELit (1)) (ECond (ECmp CNe (ECast I32 (EVar "rhs.val")) (ECast I32 (EVar "rhs.val"))) (ECmp CNe (ECast I32 (EVar "null_value()")) (ECast I32 (EVar "null_value()"))) (ELit (0)))) (ELit (0)) (ELit (1)))))) (ELit (0)) (ELit (1)))) ].
+
 Definition src_set_bit_U16 : list effect :=
   [ (Store "bits" (ECast U16 (EBin OOr I32 (EBin OAnd I32 (ECast I32 (EVar "bits")) (ENot I32 (EShl I32 (ECast I32 (ECast U16 (ELit (1)))) (ECast I32 (EVar "n"))))) (EShl I32 (ECast I32 (ECast U16 (EVar "b"))) (ECast I32 (EVar "n")))))) ].
 
@@ -588,3 +780,4 @@ Definition src_set_bit_U8 : list effect :=
 
 Definition src_size_check_macro : list effect :=
   [ (Assert (ECond (ECond (EToBool (EVar "begin")) (ECmp CLe (EVar "begin") (EVar "end")) (ELit (0))) (ECond (ECmp CLe (EVar "size") (ECast U64 (EBin OSub I64 (EVar "end") (EVar "begin")))) (ECmp CLe (EVar "offset") (EBin OSub U64 (ECast U64 (EBin OSub I64 (EVar "end") (EVar "begin"))) (EVar "size"))) (ELit (0))) (ELit (0)))) ].
+
